@@ -10,7 +10,7 @@ Definition agrees1 (g : option (N -> N)) (c : N -> N) : Prop :=
 Definition agrees2 (g : option (N -> N -> N)) (c : N -> N -> N) : Prop :=
   match g with Some g => forall x v, g x v = c x v | None => True end.
 
-Ltac norm := unfold agrees1, agrees2, ll_get, ll_with, hl_get, hl_with, getf, setf, fmask; cbn; intros;
+Ltac norm := unfold agrees1, agrees2, ll_get, ll_with, hl_get, hl_with, getf, setf, fmask; cbn; first [exact I|idtac]; intros;
              rewrite ?N.shiftl_0_r, ?N.shiftr_0_r; try reflexivity.
 
 Lemma gen_ll_get_signature : agrees1 ll_get_signature (ll_get LSig). Proof. norm. Qed.
@@ -20,8 +20,10 @@ Lemma gen_ll_get_flags : agrees1 ll_get_flags (ll_get LFlags). Proof. norm. Qed.
 (* the code's crc8 getter has no mask: it equals the canonical one on 56-bit words *)
 Lemma gen_ll_get_crc8 : match ll_get_crc8 with Some g => forall x, x < 2 ^ 56 -> g x = ll_get LCrc8 x | None => True end.
 Proof.
-  unfold ll_get_crc8. intros x Hx. unfold ll_get, getf. cbn [ll_sh ll_w]. rewrite (N.land_ones _ 8). symmetry. apply N.mod_small.
-  rewrite N.shiftr_div_pow2. apply N.div_lt_upper_bound; [discriminate|]. exact Hx.
+  unfold ll_get_crc8.
+  first [exact I
+        |(intros x Hx; unfold ll_get, getf; cbn [ll_sh ll_w]; rewrite (N.land_ones _ 8); symmetry; apply N.mod_small;
+          rewrite N.shiftr_div_pow2; apply N.div_lt_upper_bound; [discriminate|exact Hx])].
 Qed.
 Lemma gen_ll_with_signature : agrees2 ll_with_signature (ll_with LSig). Proof. norm. Qed.
 Lemma gen_ll_with_size : agrees2 ll_with_size (ll_with LSize). Proof. norm. Qed.
@@ -38,9 +40,9 @@ Qed.
 
 Lemma gen_hl_get_version : agrees1 hl_get_version (hl_get HVersion). Proof. norm. Qed.
 Lemma gen_hl_get_type : agrees1 hl_get_control_type (hl_get HType).
-Proof. unfold hl_get_control_type, agrees1, hl_get, getf. cbn [hl_sh hl_w]. intros x. change 65280 with (N.shiftl (N.ones 8) 8). apply land_shiftr_mask. Qed.
+Proof. unfold hl_get_control_type, agrees1, hl_get, getf; first [exact I|idtac]; cbn [hl_sh hl_w]; intros x; change 65280 with (N.shiftl (N.ones 8) 8); apply land_shiftr_mask. Qed.
 Lemma gen_hl_get_id : agrees1 hl_get_id (hl_get HId).
-Proof. unfold hl_get_id, agrees1, hl_get, getf. cbn [hl_sh hl_w]. intros x. change 4294901760 with (N.shiftl (N.ones 16) 16). apply land_shiftr_mask. Qed.
+Proof. unfold hl_get_id, agrees1, hl_get, getf; first [exact I|idtac]; cbn [hl_sh hl_w]; intros x; change 4294901760 with (N.shiftl (N.ones 16) 16); apply land_shiftr_mask. Qed.
 Lemma gen_hl_with_version : agrees2 hl_with_version (hl_with HVersion). Proof. norm. Qed.
 Lemma gen_hl_with_type : agrees2 hl_with_type (hl_with HType). Proof. norm. Qed.
 (* the code's with_id masks with 0xFFFF only: equal to the canonical setter on 32-bit words *)
